@@ -78,6 +78,31 @@ theorem formatCmd_check_tree (lint : Bytes → Bool) (t : Tree) (arg : Bytes) (r
       · simp only [formatOne]
         split <;> exact setFile_same _ b t hb
 
+/-- a single-file `renumber-tests --check` leaves the tree as it is -/
+theorem renumberCmd_check_tree (t : Tree) (arg : Bytes) (r : RunResult)
+    (h : renumberCmd true t arg = some r) : r.tree = t := by
+  unfold renumberCmd at h
+  split at h
+  · simp at h
+  split at h
+  · simp at h
+  · split at h
+    · split at h
+      · simp only [Option.some.injEq] at h; subst h; rfl
+      · split at h
+        · simp only [Option.some.injEq] at h; subst h; rfl
+        · simp only [] at h
+          split at h
+          · simp only [Option.some.injEq] at h; subst h; rfl
+          · rename_i c hc
+            simp only [renumberOne] at h
+            split at h
+            · simp only [Option.some.injEq] at h; subst h
+              exact setFile_same _ c t hc
+            · simp only [Bool.true_eq_false, if_true, Option.some.injEq] at h; subst h
+              exact setFile_same _ c t hc
+    · simp only [Option.some.injEq] at h; subst h; rfl
+
 /-- **C15.** generate and compare inspect; so do format and renumber-tests under --check -/
 theorem C15_run_inspects (E : Asm.Engine) (cfg : Asm.Config) (o1 o2 : Parser.Ord) (lint : Bytes → Bool) (vOk : Bool)
     (inv : Invocation) (t : Tree) (r : RunResult)
@@ -123,8 +148,10 @@ theorem C15_run_inspects (E : Asm.Engine) (cfg : Asm.Config) (o1 o2 : Parser.Ord
         · simp only [Option.some.injEq] at hg; subst hg
           exact C15_renumber_check_writes_nothing t
         · split at hg
+          · split at hg
+            · simp only [Option.some.injEq] at hg; subst hg; rfl
+            · exact renumberCmd_check_tree t _ r hg
           · simp only [Option.some.injEq] at hg; subst hg; rfl
-          · simp at hg
   unfold run at h
   split at h
   · split at h
